@@ -396,7 +396,8 @@ SPEC = {
              'whole-table entry points on all rows and 42 sampled rows for the per-row ones when n>6). '
              'Non-trivial: >=1 non-input gate reachable from an output and >=2 gate types; distinct by '
              'hash of (inputs, gates, outputs). Finite part: every gate-interpreting module enumerated '
-             'completely.'),
+             'completely.'
+             ' Added during the build: n-ary gates with up to 13 operands, zero-input circuits, the kept assignment dict, fix_gate(gate_type=T) interpreted by a one-gate search per two-operand type, and the symmetry flag of every gate type held against its operator.'),
     'assumptions': ['refsem is the intended denotation (validated each run against a naive evaluator)',
                     'pysat / mockturtle_wrapper are replaced by test doubles only to make the modules importable'],
     'subs': [Sub('eval', cases, check_eval, {'quick': 2400, 'thorough': 200000})],
